@@ -1,6 +1,7 @@
 import Driver.Proto
 import Model.BitSet
 import Model.BitSetChecked
+import Model.BitSetMachine
 import Model.BitSetHeap
 import Lemmas.BitSet
 open Proto
@@ -10,8 +11,10 @@ open Proto
     `Load`, results of `Data`) are heap arrays of the caller, which the driver scribbles on or keeps and re-checks exactly
     as the Go harness does (`hand`, suffix ` ALIAS:<what>`).  All values printed are read from the heap through
     `Heap.view`; `C08.heap_refines` / `C08.no_aliasing` relate this to the value model `BS.applyOp`, the one the set
-    theorems are about.  Every line is also executed with CHECKED word accesses (`Model/BitSetChecked.lean`); an access out
-    of range would print `panic` (`C08.all_accesses_in_bounds*`: it never does). -/
+    theorems are about.  Every line is also executed with CHECKED word accesses and CHECKED 64-bit `int` arithmetic
+    (`Model/BitSetMachine.lean`, which contains the checks of `Model/BitSetChecked.lean`); an access out of range would
+    print `panic`, an index expression that does not fit an `int` would print `overflow` (`C08.all_accesses_in_bounds*`,
+    `C08.no_int_overflow*`: neither ever happens). -/
 
 def hexWord (w : BS.W) : String := natToHex w.toNat
 
@@ -81,6 +84,12 @@ def optStr {α : Type} [ToString α] : Option α → String
   | some v => toString v
   | none => "panic"
 
+/-- result of the machine-arithmetic form; when it fails, the access-checked form says which kind of failure it was -/
+def chkStr {α : Type} [ToString α] (m : Option α) (c : Unit → Option α) : String :=
+  match m with
+  | some v => toString v
+  | none => if (c ()).isNone then "panic" else "overflow"
+
 /-- `Data()` twice, as the harness does: the first result is printed and handed on, the second is scribbled on -/
 def DS.data (s : DS) (r : BS.Reg) : DS × String :=
   let h1 := BS.applyOpH s.h (.data r)
@@ -105,9 +114,9 @@ def exec (s : DS) (ws : List String) : DS × String :=
     let r := match ws with
       | _ :: r :: _ => (reg? r).getD .A
       | _ => .A
-    -- checked execution on the value the heap denotes: `none` = an index out of range
-    match BS.applyOpC s.h.denote op with
-    | none => (s, "panic")
+    -- checked execution on the value the heap denotes: `none` = an index out of range or an `int` that wrapped
+    match BS.applyOpM s.h.denote op with
+    | none => (s, if (BS.applyOpC s.h.denote op).isNone then "panic" else "overflow")
     | some _ =>
       let h' := BS.applyOpH s.h op
       let s' : DS := { s with h := h' }
@@ -137,12 +146,12 @@ def exec (s : DS) (ws : List String) : DS × String :=
       | none => (s, "bad-op")
     | ["state", r, i] => qryAt s r i (fun b i => optStr (BS.stateC b i))
     | ["count", r] => qry s r (fun b => toString (BS.count b))
-    | ["first", r] => qry s r (fun b => optStr (BS.firstSetC b))
-    | ["last", r] => qry s r (fun b => optStr (BS.lastSetC b))
-    | ["next", r, i] => qryAt s r i (fun b i => optStr (BS.nextSetC b i))
-    | ["prev", r, i] => qryAt s r i (fun b i => optStr (BS.previousSetC b i))
-    | ["nextclr", r, i] => qryAt s r i (fun b i => optStr (BS.nextClearC b i))
-    | ["prevclr", r, i] => qryAt s r i (fun b i => optStr (BS.previousClearC b i))
+    | ["first", r] => qry s r (fun b => chkStr (BS.firstSetM b) (fun _ => BS.firstSetC b))
+    | ["last", r] => qry s r (fun b => chkStr (BS.lastSetM b) (fun _ => BS.lastSetC b))
+    | ["next", r, i] => qryAt s r i (fun b i => chkStr (BS.nextSetM b i) (fun _ => BS.nextSetC b i))
+    | ["prev", r, i] => qryAt s r i (fun b i => chkStr (BS.previousSetM b i) (fun _ => BS.previousSetC b i))
+    | ["nextclr", r, i] => qryAt s r i (fun b i => chkStr (BS.nextClearM b i) (fun _ => BS.nextClearC b i))
+    | ["prevclr", r, i] => qryAt s r i (fun b i => chkStr (BS.previousClearM b i) (fun _ => BS.previousClearC b i))
     | ["equal"] => (s, optStr (BS.equalC (s.h.view .A) (s.h.view .B)) ++ " " ++ optStr (BS.equalC (s.h.view .B) (s.h.view .A)))
     | ["equalnil", r] => qry s r (fun _ => "false")
     | ["equalself", r] => qry s r (fun b => optStr (BS.equalC b b))
@@ -151,8 +160,8 @@ def exec (s : DS) (ws : List String) : DS × String :=
       match reg? r with
       | some r =>
         let b := s.h.view r
-        let pre := "c=" ++ toString (BS.count b) ++ " m=" ++ memStr b ++ " f=" ++ optStr (BS.firstSetC b) ++
-          " l=" ++ optStr (BS.lastSetC b)
+        let pre := "c=" ++ toString (BS.count b) ++ " m=" ++ memStr b ++ " f=" ++ chkStr (BS.firstSetM b) (fun _ => BS.firstSetC b) ++
+          " l=" ++ chkStr (BS.lastSetM b) (fun _ => BS.lastSetC b)
         let x := s.data r
         (x.1, pre ++ " d=" ++ x.2)
       | none => (s, "bad-op")
